@@ -269,7 +269,7 @@ func (e *streamExec) prepareToken() bool {
 	}
 	// buffered decode of the complete bytes = what every stream read must equal
 	tk, dc, derr := e.decodeToken(nil, ref)
-	if derr != nil || tk == nil {
+	if derr != nil || isNilTok(tk) {
 		o.Logf("buffered decode failed (reported under C07 elsewhere): %v", derr != nil)
 		return false
 	}
@@ -711,7 +711,7 @@ func (e *streamExec) readOnce(chunks []int, eofData bool, f ReadFault) {
 		if guard(o, entry, func() { tk, gotCID, err = e.decodeToken(r, nil) }) {
 			return
 		}
-		if tk != nil {
+		if !isNilTok(tk) {
 			gotTok = true
 			recs = []string{cidHex(gotCID.Bytes()) + "=" + recOf(tk).Content()}
 		}
